@@ -103,9 +103,10 @@ def compile_many(ctx, progs, timeout=120):
             raise RuntimeError('cannot build ascent from /repo: nothing to compile against')
         ctx._rlibs_fresh = True
 
-    def one(item):
-        name, macro, text = item
+    def one(iitem):
+        i, (name, macro, text) = iitem
         src, first, last = wrap(macro, text)
-        return compile_one(os.path.join(d, re.sub(r'\W', '_', name) + '.rs'), src, first, last, timeout)
+        # one file per program, whatever the names: two compilations must never share a path
+        return compile_one(os.path.join(d, 'p%d_%s.rs' % (i, re.sub(r'\W', '_', name))), src, first, last, timeout)
     with ThreadPoolExecutor(max_workers=core.NCPU) as ex:
-        return list(ex.map(one, progs))
+        return list(ex.map(one, enumerate(progs)))
